@@ -146,10 +146,11 @@ func (g *codeGenerator) genTypes(types map[string]*Type) {
 }
 
 func (g *codeGenerator) genMsgs(msgs []*Msg) {
-	g.p("import (")
-	g.p("\"math\"")
-	g.p("\"time\"")
-	g.p(")")
+	// Generate the message code into a buffer of its own first: which
+	// packages have to be imported depends on the selected fields (a
+	// product profile without time or scaled fields uses neither).
+	head := g.Buffer
+	g.Buffer = new(bytes.Buffer)
 	for _, msg := range msgs {
 		g.p()
 		g.p("// ", msg.CCName, "Msg represents the ", msg.Name, " FIT message type.")
@@ -167,6 +168,17 @@ func (g *codeGenerator) genMsgs(msgs []*Msg) {
 			g.genComponentsRelated(msg, compfs, dyncompfs)
 		}
 	}
+	body := g.Buffer.Bytes()
+	g.Buffer = head
+	g.p("import (")
+	if bytes.Contains(body, []byte("math.")) {
+		g.p("\"math\"")
+	}
+	if bytes.Contains(body, []byte("time.Time")) {
+		g.p("\"time\"")
+	}
+	g.p(")")
+	g.Write(body)
 }
 
 func (g *codeGenerator) genFields(msg *Msg) (scaledfi, dynfi, compfi []int, dyncompfi map[int][]int) {
